@@ -421,6 +421,8 @@ func statsFacts() map[string]any {
 		"c15_auth_header":                 "?",
 		"c15_auth_one_region":             0,
 		"c15_logonline_sites":             "?",
+		"c15_refusal_sites":               "?",
+		"c15_copytwoway_loggers":          "?",
 	}
 	serverFacts(out)
 	path := filepath.Join(c15RepoRoot(), "extras", "trafficlogger", "http.go")
@@ -623,7 +625,7 @@ func serverFacts(out map[string]any) {
 	if err != nil {
 		return
 	}
-	var sites []string
+	var sites, refusal, relayLoggers []string
 	parsed := false
 	for _, e := range entries {
 		n := e.Name()
@@ -640,6 +642,24 @@ func serverFacts(out map[string]any) {
 			if !ok || fd.Body == nil {
 				continue
 			}
+			refusal = append(refusal, refusalSites(fd)...)
+			// which TrafficLogger every copyTwoWayEx call passes (4th argument)
+			ast.Inspect(fd.Body, func(x ast.Node) bool {
+				if c, ok := x.(*ast.CallExpr); ok {
+					if id, ok := c.Fun.(*ast.Ident); ok && id.Name == "copyTwoWayEx" && len(c.Args) >= 4 {
+						kind := "other"
+						if u, ok := c.Args[3].(*ast.UnaryExpr); ok && u.Op == token.AND {
+							if cl, ok := u.X.(*ast.CompositeLit); ok {
+								if t, ok := cl.Type.(*ast.Ident); ok {
+									kind = t.Name
+								}
+							}
+						}
+						relayLoggers = append(relayLoggers, fd.Name.Name+":"+kind)
+					}
+				}
+				return true
+			})
 			// every LogOnlineState call site, wherever it is
 			ast.Inspect(fd.Body, func(x ast.Node) bool {
 				if c, ok := x.(*ast.CallExpr); ok {
@@ -694,5 +714,115 @@ func serverFacts(out map[string]any) {
 	if parsed {
 		sort.Strings(sites)
 		out["c15_logonline_sites"] = strings.Join(sites, ";")
+		sort.Strings(refusal)
+		out["c15_refusal_sites"] = strings.Join(refusal, ";")
+		sort.Strings(relayLoggers)
+		out["c15_copytwoway_loggers"] = strings.Join(relayLoggers, ";")
 	}
+}
+
+// refusalSites classifies every `….LogTraffic(…)` call site of a function of core/server:
+//
+//	closes      `ok := x.LogTraffic(…)` immediately followed by `if !ok { … }` whose body calls
+//	            CloseWithError (the refusal closes the QUIC connection where it is observed)
+//	noclose     the same shape, but the `if !ok` body does not close the connection
+//	unchecked   the result is assigned and not tested by the next statement
+//	returns-l   `return l.LogTraffic(…)`: the verdict is handed to the caller (copyBufferLog turns
+//	            false into errDisconnect); `l` must then be a logger that closes (see
+//	            c15_copytwoway_loggers)
+//	other       any other shape
+//
+// rendered as "<Recv.>Func:<class>".
+func refusalSites(fd *ast.FuncDecl) []string {
+	name := fd.Name.Name
+	if fd.Recv != nil && len(fd.Recv.List) == 1 {
+		t := fd.Recv.List[0].Type
+		if st, ok := t.(*ast.StarExpr); ok {
+			t = st.X
+		}
+		if id, ok := t.(*ast.Ident); ok {
+			name = id.Name + "." + name
+		}
+	}
+	isLog := func(e ast.Expr) (*ast.CallExpr, bool) {
+		c, ok := e.(*ast.CallExpr)
+		if !ok {
+			return nil, false
+		}
+		s, ok := c.Fun.(*ast.SelectorExpr)
+		return c, ok && s.Sel.Name == "LogTraffic"
+	}
+	classified := map[*ast.CallExpr]string{}
+	var blocks func(n ast.Node)
+	blocks = func(n ast.Node) {
+		ast.Inspect(n, func(x ast.Node) bool {
+			var list []ast.Stmt
+			switch b := x.(type) {
+			case *ast.BlockStmt:
+				list = b.List
+			case *ast.CaseClause:
+				list = b.Body
+			default:
+				return true
+			}
+			for i, st := range list {
+				switch s := st.(type) {
+				case *ast.AssignStmt:
+					if len(s.Rhs) != 1 || len(s.Lhs) != 1 {
+						continue
+					}
+					c, ok := isLog(s.Rhs[0])
+					if !ok {
+						continue
+					}
+					v, ok := s.Lhs[0].(*ast.Ident)
+					class := "unchecked"
+					if ok && i+1 < len(list) {
+						if ifs, ok := list[i+1].(*ast.IfStmt); ok && ifs.Init == nil {
+							if u, ok := ifs.Cond.(*ast.UnaryExpr); ok && u.Op == token.NOT {
+								if id, ok := u.X.(*ast.Ident); ok && id.Name == v.Name {
+									class = "noclose"
+									ast.Inspect(ifs.Body, func(y ast.Node) bool {
+										if cc, ok := y.(*ast.CallExpr); ok {
+											if cs, ok := cc.Fun.(*ast.SelectorExpr); ok && cs.Sel.Name == "CloseWithError" {
+												class = "closes"
+											}
+										}
+										return true
+									})
+								}
+							}
+						}
+					}
+					classified[c] = class
+				case *ast.ReturnStmt:
+					if len(s.Results) == 1 {
+						if c, ok := isLog(s.Results[0]); ok {
+							class := "other"
+							if id, ok := c.Fun.(*ast.SelectorExpr).X.(*ast.Ident); ok {
+								class = "returns-" + id.Name
+							}
+							classified[c] = class
+						}
+					}
+				}
+			}
+			return true
+		})
+	}
+	blocks(fd.Body)
+	var out []string
+	ast.Inspect(fd.Body, func(x ast.Node) bool {
+		if c, ok := x.(*ast.CallExpr); ok {
+			if _, ok := isLog(c); ok {
+				class, seen := classified[c]
+				if !seen {
+					class = "other"
+				}
+				out = append(out, name+":"+class)
+			}
+		}
+		return true
+	})
+	return out
 }
